@@ -283,6 +283,15 @@ def check_grown(r) -> list[Fail]:
     cls = ml.Molecule if r["cls"] == "Molecule" else ml.Structure
     m = build(r, cls)
     fails: list[Fail] = []
+    held = None
+    if r.get("wrapped") and m.n_atoms >= 2:
+        # some of the molecule's Atom objects were handed, uncopied, to another container earlier (this re-parents the objects; the
+        # molecule's own atom list, bonds and coordinates are untouched); the container is still alive (1) or gone again (2)
+        import gc
+        held = ml.Promolecule([m.atoms[i] for i in range(m.n_atoms - 1, max(-1, m.n_atoms - 4), -1)])
+        if r["wrapped"] == 2:
+            held = None
+            gc.collect()
     labels = oracle(m, fails, f"grown[{r['orient']}]" + (" named-atoms-form" if r.get("subset") else ""), subset=r.get("subset"))
     tally(labels=labels)
     seen, out = set(), []
@@ -324,6 +333,7 @@ def strat_grown(tier):
     return st.fixed_dictionaries({
         "cls": st.sampled_from(["Molecule", "Molecule", "Structure"]), "root": root, "nodes": st.lists(node, min_size=0, max_size=12),
         "gseed": st.integers(0, 10**6), "orient": st.sampled_from(["random", "random", "as_built", "first_bond_along_z"]),
+        "wrapped": st.sampled_from([0, 0, 0, 1, 2]),
         "subset": st.one_of(st.none(), st.none(), st.tuples(st.integers(1, 2**16 - 1), st.booleans()).map(list)),
         "decl": st.one_of(st.none(), st.tuples(st.integers(-2, 2), st.integers(1, 4)).map(list)),
     })
